@@ -168,7 +168,10 @@ class Conf:
         self.modules = d.get("modules", ["iauth_class", "iauth_xquery"])
         self.xquery = "iauth_xquery" in self.modules or "iauth_class" in self.modules
         self.klass = "iauth_class" in self.modules
-        self.timeout = d.get("timeout") or 0
+        t = d.get("timeout") or 0
+        if isinstance(t, str):          # interval notation: plain seconds or <n>m
+            t = int(t[:-1]) * 60 if t.endswith("m") else int(t)
+        self.timeout = t
         self.services = {}
         for name, proto in d.get("services", []):
             self.services[name] = proto.lower() if proto.lower() in PROTOCOLS else None
